@@ -170,7 +170,7 @@ impl Campaign for KeyCampaign {
       Source::Dist => "layout = random small layout (plain, derived or alias motif) with distinguishable outputs (mapping i ends in its own key F13..F20, never pressed physically) passed through the real loader; one case in three renamed over the whole key-code space (distinguished keys stay)",
       Source::Empty => "layout = empty",
     };
-    format!("{}; history = seeded schedule of key actors, 0-3 chord intents and state-aware bias, at most N keys held (N 1-4 quick, 1-6 thorough), length 4-40 quick / 4-120 thorough, channel faults (duplicate press, spurious release, dropped event; swarm: half of the runs fault-free){}; a case is distinct by hash of (layout, ops); non-trivial = {}",
+    format!("{}; history = seeded schedule of key actors, 0-3 chord intents and state-aware bias, at most N keys held (N 1-4 quick, 1-6 thorough), length 4-40 quick / 4-120 thorough (one history in 200 is a marathon of 300-1200 / 300-3000 events), channel faults (duplicate press, spurious release, dropped event; swarm: half of the runs fault-free){}; a case is distinct by hash of (layout, ops); non-trivial = {}",
       src, if self.resets { ", reset blocks (release_all, unseen activity, release_all)" } else { "" }, nontrivial_rule(self.property))
   }
   fn components(&self) -> Value {
